@@ -191,6 +191,30 @@ def g_rules(p: Project, rep: Report):
                 continue
             ok = all(v.attr == k.value for k, v in zip(d.keys, d.values)) and len({text(v.value) for v in d.values}) == 1
             rep.check("G-R1", "merge_from_ofxhome:values-from-lookup", ok, "" if ok else "OFX Home values are not stored under their own option names", gloc(p, c))
+            if ok:
+                # each option independently: whether the record is used at all must not hinge on ONE of its fields
+                from . import paths as _PTO
+
+                rec = text(d.values[0].value)
+                raw_ = c.args[1]
+                if isinstance(raw_, ast.Dict) and raw_.values and isinstance(raw_.values[0], ast.Attribute):
+                    rec = text(raw_.values[0].value)  # the local holding the record, as the conditions spell it
+                try:
+                    opl = _PTO.enumerate_paths(mo, None, mox, resolve=False)
+                except AnalysisError:
+                    opl = None
+                if opl is not None:
+                    on_field = None
+                    for n_ in [x for x in opl.cfg.nodes if x.stmt is not None and x.kind not in ("join", "handlers") and any(cc is c or text(cc) == text(c) for cc in x.calls())]:
+                        for q in opl:
+                            cb = q.conds_before(n_.id)
+                            if cb is None:
+                                continue
+                            for cnd, _w in cb:
+                                for a in cnd.atoms():
+                                    if f"{rec}." in a:
+                                        on_field = a
+                    rep.check("G-R1", "merge_from_ofxhome:record-used-whatever-its-fields", on_field is None, f"the OFX Home layer is inserted only when `{on_field}`: a record lacking that one field is ignored as a whole, so the options it does carry (org, fid, brokerid) fall through to the built-in defaults although nothing higher-ranking sets them" if on_field else "", gloc(p, c))
         elif isinstance(d, ast.DictComp) and len(d.generators) == 1 and isinstance(d.generators[0].target, ast.Name) and not d.generators[0].ifs:
             var = d.generators[0].target.id
             v = d.value
@@ -953,3 +977,36 @@ def j_rules(p: Project, rep: Report):
                 if ok and name == "prettyprint" and any(t.startswith("not ") for t in texts):
                     ok, why = False, "prettyprint is the negation of the 'pretty' option"
                 rep.check("J-R1", f"init_client:{name}", ok, why if not ok else "", gloc(p, c))
+
+
+def g_r8_flags_reach_client(p: Project, rep: Report):
+    """a boolean option reaches the client with both of its values"""
+    rep.rule("G-R8", "a boolean setting in effect is the one the client is built with: in init_client no boolean-valued argument of OFXClient(...) is passed as `<flag> or None` when the client's own default for that parameter is true - None means 'keep the default', so the false value can never be delivered (close_elements = not unclosedelements: with unclosedelements set, from any source, the client would still close its elements)")
+    ic0 = _fn(p, "init_client")
+    ic = flat(p, OFXGET, ic0)
+    ex = Expander(ic)
+    defaults, _conf = _configurable(p)
+    cc = p.get_class("ofxtools.Client", "OFXClient")
+    n = 0
+    for c in own_nodes(ic):
+        if not (isinstance(c, ast.Call) and text(c.func) == "OFXClient"):
+            continue
+        for k in c.keywords:
+            if k.arg is None:
+                continue
+            v = ex.x(k.value)
+            if not (isinstance(v, ast.BoolOp) and isinstance(v.op, ast.Or) and isinstance(v.values[-1], ast.Constant) and v.values[-1].value is None):
+                continue
+            flag = v.values[0]
+            keys = [x.slice.value for x in ast.walk(flag) if isinstance(x, ast.Subscript) and text(x.value) == "args" and isinstance(x.slice, ast.Constant)]
+            boolean = (isinstance(flag, ast.UnaryOp) and isinstance(flag.op, ast.Not)) or (len(keys) == 1 and isinstance(defaults.get(keys[0]), bool))
+            if not boolean:
+                continue
+            n += 1
+            d = cc.lookup(k.arg)
+            if isinstance(d, bool) or d is None:
+                ok = not d
+                rep.check("G-R8", f"init_client:{k.arg}:false-deliverable", ok, f"OFXClient({k.arg}={text(v)}): when the flag is false the client is given None and keeps its own default {k.arg}={d!r}, so the setting in effect ({', '.join(keys)}) never reaches the request" if not ok else "", gloc(p, c))
+            else:
+                rep.note(f"G-R8 undecided: default of OFXClient.{k.arg} not a constant")
+    rep.unit("client_flags_passed_or_none", n)
